@@ -43,7 +43,43 @@ def resolve_map_expr(repo, ci, name, depth=0):
     return owner, node
 
 
+MEMO = {"cache", "lru_cache", "cached_property", "memoize"}
+
+
+def no_memo(chk, repo):
+    """R29.6: where a variable lives is decided per program object and per
+    layout run (collect() stores the offsets in the object's __dict__;
+    SimulatedEBPF lays out afresh for every group).  A memoised lookup
+    keyed on the descriptor answers for *another* object - or for the
+    layout before the last one."""
+    chk.doc("R29.6", "layout lookups are not memoised")
+    bad = []
+    n = 0
+    for q in ("ebpfcat.arraymap.ArrayGlobalVarDesc",
+              "ebpfcat.ebpfcat.DeviceVar", "ebpfcat.ebpf.MemoryDesc"):
+        base = repo.cls(q)
+        for ci in repo.subclasses(q):
+            if ci.module.name.endswith("_test"):
+                continue
+            for name, f in ci.methods.items():
+                if not isinstance(f, FUNC):
+                    continue
+                n += 1
+                for d in f.decorator_list:
+                    nm = (dotted(d.func if isinstance(d, ast.Call) else d)
+                          or "").split(".")[-1]
+                    if nm in MEMO:
+                        bad.append((f, f"{ci.qualname}.{name} is @{nm}"))
+    chk.floor("R29.6", "descriptor methods looked at", n, 10)
+    chk.ob("R29.6", "ebpfcat.arraymap.ArrayGlobalVarDesc", "no descriptor "
+           "method is memoised", not bad, bad[0][0] if bad else None,
+           (bad[0][1] + ": the offset of one group's variable is handed out "
+            "for the same device variable in another group or after a new "
+            "layout") if bad else f"{n} methods")
+
+
 def run(chk, repo):
+    no_memo(chk, repo)
     chk.doc("R29.5", "the process group runs the cycle of SyncGroup on the "
                      "shared array itself")
     override_rule(chk, repo, "R29.5", "ebpfcat.ebpfcat.SyncGroup",
